@@ -509,7 +509,10 @@ def create_tree_model(id_: str, taxa: dict, arg):
 def create_poisson_tree_likelihood(id_, taxa, arg):
     tree_id = "tree"
     tree_model = create_tree_model(tree_id, taxa, arg)
-    branch_model = create_branch_model("branchmodel", tree_id, len(taxa["taxa"]), arg)
+    rate_init = arg.rate_init if isinstance(arg.rate_init, float) else None
+    branch_model = create_branch_model(
+        "branchmodel", tree_id, len(taxa["taxa"]), arg, rate_init
+    )
 
     treelikelihood_model = {
         "id": id_,
